@@ -1,5 +1,6 @@
 import AiocoapModel.Basic.Bytes
 import AiocoapModel.Codec.Message
+import AiocoapModel.Codec.Receive
 /-! Line protocol for the datagram codec model (C01).
 
 `C01 ext r <nibble> <hex>`   → `<value> <rest-hex>` | `err`        (`readExt`)
@@ -8,6 +9,8 @@ import AiocoapModel.Codec.Message
 `C01 utf8 <hex>`             → `1` | `0`                           (`utf8Valid`)
 `C01 dec <hex>`              → `ok <msg>` | `err:unparsable` | `err:escaped:<PyExceptionName>`
 `C01 enc <msg>`              → `ok <hex>` | `err:struct.error` | `err:ValueError`
+`C01 sock <hex>`             → `dispatched <msg>` | `dropped` | `escaped:<PyExceptionName>`   (`udp6Receive`: one
+                               datagram arriving on the udp6 socket)
 
 `<msg>` = `<mtype> <code> <mid> <token-hex> <payload-hex> <opt>*`, all numbers decimal;
 `<opt>` = `<num>:s:<utf8-hex>` | `<num>:o:<hex>` | `<num>:u:<hexnum>` | `<num>:c:<hexnum>` |
@@ -119,6 +122,14 @@ def handleC01 (args : List String) : String :=
       | .ok m => "ok " ++ showMsg m
       | .error .unparsable => "err:unparsable"
       | .error (.escaped .unicodeDecode) => "err:escaped:UnicodeDecodeError"
+    | none => "bad-op"
+  | ["sock", hex] =>
+    match hexToBytes hex with
+    | some raw =>
+      match udp6Receive raw with
+      | .dispatched m => "dispatched " ++ showMsg m
+      | .dropped => "dropped"
+      | .escaped .unicodeDecode => "escaped:UnicodeDecodeError"
     | none => "bad-op"
   | "enc" :: rest =>
     if (rest.drop 5).any isForeignOpt then "out-of-model" else
